@@ -314,7 +314,9 @@ Definition step (s : st) (e : ev) : option st :=
             match cbother r with
             | Some o =>
                 let ro := un s o in
-                if Nat.eqb (upool r) (upool ro) && inb (upool r) (cnt ro) then
+                let n := count_occ Nat.eq_dec (cnt ro) (upool r) in
+                if negb (Nat.eqb o u) && Nat.eqb (upool r) (upool ro) &&
+                   (if must_count (ust ro) then Nat.leb 2 n else Nat.leb 1 n) then
                   let pr := po s (upool r) in
                   Some (mkS (upd (upd (un s) o (with_cnt ro (remove1 (upool r) (cnt ro))))
                                  u (with_cnt (with_ust_ost r UBlocked 2) (upool r :: cnt r)))
